@@ -1,3 +1,5 @@
+//go:build go1.23
+
 package gjkr
 
 // Wire-level malformations of a corrupt member's messages: what the member
